@@ -198,6 +198,14 @@ def step(draw):
     params = {}
     if kind in R.ALL:
         params = draw(G.params_for(kind, n, [0.5, -0.25, 1.0, 0.0]))
+        if draw(st.integers(0, 5)) == 0:
+            # parameters at the ends of the double range: whatever the command computes from them, its inputs stay as they are
+            extreme = st.sampled_from([1e308, -1e308, 5e307, 1e-308, 1e20, 0.0, -0.0])
+            params = {k: (draw(extreme) if isinstance(v, (int, float)) and not isinstance(v, bool) else
+                          [draw(extreme) if isinstance(x, (int, float)) and not isinstance(x, bool) and draw(st.booleans()) else x for x in v] if isinstance(v, list) else v)
+                      for k, v in params.items() if k != "NumberToConsider"}
+            if "NumberToConsider" in draw(G.params_for(kind, n, [0.5])) if kind == "FuzzySelectedUnion" else False:
+                params["NumberToConsider"] = 1
     return {"cmd": kind, "picks": picks, "params": params}
 
 
